@@ -45,7 +45,7 @@ DIAG: dict = {}        # case id -> diagnostic text from Coq
 # ------------------------------------------------------------------------------------------------
 def base_cfg(**kw):
     c = dict(seed_kind="int", seed=1, nch=2, nker=1, nqg=0, sched=[[0, 1, 1], [4, 2, 1]], via="builder",
-             chunk=None, jit=None, init_mode="replicate", init=[[3, 4]], eseed=None, builds=1, pre_init=None)
+             chunk=None, jit=None, init_mode="replicate", init=[[3, 4]], eseed=None, builds=1, pre_init=None, jit_pre=None)
     c.update(kw)
     return c
 
@@ -94,6 +94,31 @@ def corpus():
     # 13: builder reuse: other initial values are set and built first, then the real ones (replicated)
     out.append(("builder_reuse", base_cfg(seed=9, nch=2, nker=1, nqg=0, sched=[[0, 1, 1], [4, 2, 1]], jit=["p0"],
                 init=[[70, 80]], pre_init={"mode": "per_chain", "init": [[1, 2], [3, 4]]})))
+    # 14, 15: set_jitter_fns called more than once: the last call wins, None clears
+    out.append(("jitter_then_none", base_cfg(seed=13, nch=2, nker=1, nqg=0, sched=[[0, 1, 1], [4, 2, 1]],
+                jit_pre=[["p0", "x"]], jit=None, init_mode="per_chain", init=[[10, 20], [30, 40]])))
+    out.append(("jitter_replaced", base_cfg(seed=14, nch=2, nker=2, nqg=0, sched=[[0, 1, 1], [4, 2, 1]],
+                jit_pre=[["p0"], None], jit=["x", "p1"], init=[[10, 20, 30]])))
+    # 16, 17: integer seeds outside [0, 2**32): the root key is jax.random.PRNGKey(seed) as jax computes it
+    out.append(("seed_minus_one", base_cfg(seed=-1, nch=1, nker=1, nqg=0, sched=[[0, 1, 1], [4, 2, 1]], jit=["p0"],
+                init=[[5, 6]])))
+    out.append(("seed_2**32+5", base_cfg(seed=2 ** 32 + 5, nch=2, nker=1, nqg=1, sched=[[0, 1, 1], [1, 2, 1], [4, 2, 1]],
+                jit=["x"], init=[[5, 6]])))
+    return out
+
+
+BOUNDARY_SEEDS = [2 ** 31 - 1, 2 ** 31, 2 ** 32 - 1, 2 ** 32, 2 ** 32 + 5, 2 ** 40 + 7, -1, -2 ** 31]
+
+
+def thorough_extra():
+    """thorough tier: every boundary seed as constructor seed and as set_engine_seed argument"""
+    out = []
+    for k, s in enumerate(BOUNDARY_SEEDS):
+        out.append(("boundary_seed_%d" % s, base_cfg(seed=s, nch=1 + k % 2, nker=1, nqg=k % 2, sched=[[0, 1, 1], [4, 2, 1]],
+                    jit=["p0"], init=[[5, 6]])))
+    for k, s in enumerate(BOUNDARY_SEEDS[3:7]):
+        out.append(("boundary_engine_seed_%d" % s, base_cfg(seed=3, nch=2, nker=1, nqg=0, sched=[[0, 1, 1], [4, 2, 1]],
+                    jit=["x"], init=[[5, 6]], eseed=["int", s])))
     return out
 
 
@@ -130,10 +155,17 @@ def rand_cfg(rnd, i):
     rows = 1 if mode == "replicate" else nch
     init = [[rnd.choice([0, 1, 9972, rnd.randint(0, 9972), rnd.randint(-50, 50)]) for _ in names] for _ in range(rows)]
     if rnd.random() < 0.5:
-        sk, seed = "int", rnd.choice([0, 1, rnd.randint(0, 2 ** 31 - 1), rnd.randint(0, 1000)])
+        sk, seed = "int", rnd.choice([0, 1, rnd.randint(0, 2 ** 31 - 1), rnd.randint(0, 1000), rnd.choice(BOUNDARY_SEEDS)])
     else:
         sk, seed = "key", [rnd.randint(0, 2 ** 32 - 1), rnd.randint(0, 2 ** 32 - 1)]
     cfg = base_cfg(seed_kind=sk, seed=seed, nch=nch, nker=nk, nqg=nq, sched=sched, jit=jit, init_mode=mode, init=init)
+    if rnd.random() < 0.2:
+        pre = []
+        for _ in range(rnd.randint(1, 2)):
+            sub = [n for n in names if rnd.random() < 0.5]
+            rnd.shuffle(sub)
+            pre.append(rnd.choice([None, sub, sub]))
+        cfg["jit_pre"] = pre
     r = rnd.random()
     if r < 0.2:
         cfg["builds"] = 2
@@ -145,7 +177,7 @@ def rand_cfg(rnd, i):
         cfg["pre_init"] = {"mode": pm, "init": [[rnd.randint(0, 9972) for _ in names]
                                                 for _ in range(1 if pm == "replicate" else nch)]}
     if rnd.random() < 0.2 and len(sched) > 1:
-        cfg.update(via="engine", jit=None, init_mode="per_chain", builds=1, pre_init=None,
+        cfg.update(via="engine", jit=None, init_mode="per_chain", builds=1, pre_init=None, jit_pre=None,
                    init=[[rnd.randint(0, 9972) for _ in names] for _ in range(nch)])
         import math
         g = math.gcd(*[e[1] for e in sched[1:]])
@@ -163,6 +195,12 @@ def stratum(cfg):
         parts.append("build() twice" + ("+jitter" if cfg["jit"] else ""))
     if cfg.get("pre_init"):
         parts.append("builder reuse after set_initial_values+build")
+    if cfg.get("jit_pre"):
+        parts.append("set_jitter_fns repeated, last:" + ("None" if cfg["jit"] is None else "dict"))
+    if cfg["seed_kind"] == "int" and not (0 <= int(cfg["seed"]) < 2 ** 31 - 1):
+        parts.append("int seed at / outside the int32 range")
+    if any(e[0] in (1, 2) for e in cfg["sched"]) and any(e[0] == 4 for e in cfg["sched"]) and cfg["nch"] >= 2:
+        parts.append("tuning history reaches end_warmup (>= 2 chains)")
     return parts
 
 
@@ -267,7 +305,8 @@ def compare_runs(cfg_a, obs_a, cfg_b, obs_b, chains=None):
     return None
 
 
-KINDS = ["rerun", "seed_equiv", "perturb", "replicate_equiv", "build_twice", "eseed_equiv", "eseed_ctor", "reuse"]
+KINDS = ["rerun", "seed_equiv", "perturb", "replicate_equiv", "build_twice", "eseed_equiv", "eseed_ctor", "reuse",
+         "jit_script"]
 
 
 def pair_variants(cfg, i, rnd):
@@ -281,7 +320,7 @@ def pair_variants(cfg, i, rnd):
           "build_twice": bld,
           "eseed_equiv": bld and es is not None and es[0] == "int",
           "eseed_ctor": bld and es is None,
-          "reuse": bld}
+          "reuse": bld, "jit_script": bld}
     n = len(KINDS)
     kind = next(KINDS[(i + d) % n] for d in range(n) if ok[KINDS[(i + d) % n]]) if i % n else "rerun"
     p = copy.deepcopy(cfg)
@@ -303,6 +342,9 @@ def pair_variants(cfg, i, rnd):
         p["eseed"] = ["key", kit.engine_root_key(cfg)]
     elif kind == "eseed_ctor":
         p["eseed"] = ["ctor"]
+    elif kind == "jit_script":
+        # the same final jitter configuration reached directly / through earlier set_jitter_fns calls
+        p["jit_pre"] = None if cfg.get("jit_pre") else [kit.pos_names(cfg), None][: 1 + (cfg["nch"] % 2)]
     elif kind == "reuse" and cfg.get("pre_init"):
         p["pre_init"] = None
     elif kind == "reuse":
@@ -322,6 +364,8 @@ PAIR_TEXT = {
     "eseed_ctor": "handing the builder's own engine_seed back through set_engine_seed changes the run: ",
     "reuse": "a builder on which other initial values were set and built before gives a different engine for the "
              "same final initial values: ",
+    "jit_script": "the run differs from the run in which only the last set_jitter_fns call is made (the last call "
+                  "must win, None must clear): ",
     "process_rerun": "the same configuration run in a fresh interpreter process (PYTHONHASHSEED=%s) differs: ",
 }
 
@@ -371,15 +415,18 @@ def generate(ctx):
     common.log(f"C10 generate starts at {time.time() - ctx.t0:.0f}s")
     rnd = random.Random(ctx.seed)
     cases = []
-    n_rand = 3 if ctx.quick else 60
+    n_rand = 2 if ctx.quick else 60
     n_pairs_rand = 1 if ctx.quick else 30
+    ncorp = len(corpus())
     todo = [(nm, cfg) for nm, cfg in corpus()] + [("random%03d" % i, rand_cfg(rnd, i)) for i in range(n_rand)]
+    if not ctx.quick:
+        todo += thorough_extra()
     from . import c10_kit as kit0
     pname, pcfg0 = corpus()[PROCESS_CFG_INDEX]
     procs = [(hs, kit0.spawn_run(pcfg0, hs)) for hs in (HASHSEEDS_QUICK if ctx.quick else HASHSEEDS_THOROUGH)]
     process_base = None
     # corpus index -> partner kinds (indices into KINDS)
-    pair_for = {0: [0, 1, 2, 6], 2: [3], 9: [2], 3: [1], 10: [4], 11: [5], 12: [7]}
+    pair_for = {0: [0, 2], 1: [6], 2: [3], 9: [2], 10: [4], 11: [5], 12: [7], 13: [8], 14: [8], 15: [1], 16: [1]}
     for idx, (nm, cfg) in enumerate(todo):
         cid = len(cases)
         case = make_case(ctx, cid, nm, cfg)
@@ -389,8 +436,12 @@ def generate(ctx):
         kinds = []
         if idx in pair_for:
             kinds = pair_for[idx]
-        elif idx >= len(corpus()) and (idx - len(corpus())) < n_pairs_rand * 2 and idx % 2 == 0:
-            kinds = [1 + (idx // 2) % 7 if (idx // 2) % 9 else 0]      # rotate the partner kinds, every 9th a rerun
+        elif nm.startswith("boundary_seed"):
+            kinds = [KINDS.index("seed_equiv")]
+        elif nm.startswith("boundary_engine_seed"):
+            kinds = [KINDS.index("eseed_equiv")]
+        elif idx >= ncorp and (idx - ncorp) < n_pairs_rand * 2 and idx % 2 == 0:
+            kinds = [1 + (idx // 2) % 8 if (idx // 2) % 9 else 0]      # rotate the partner kinds, every 9th a rerun
             # the builder strata get their own partner
             if cfg["via"] == "builder" and (cfg.get("eseed") or [None])[0] == "int":
                 kinds = [KINDS.index("eseed_equiv")]
@@ -398,6 +449,8 @@ def generate(ctx):
                 kinds = [KINDS.index("build_twice")]
             elif cfg["via"] == "builder" and cfg.get("pre_init"):
                 kinds = [KINDS.index("reuse")]
+            elif cfg["via"] == "builder" and cfg.get("jit_pre"):
+                kinds = [KINDS.index("jit_script")]
         if case["error"] is not None:
             kinds = []
         for k in kinds:
@@ -426,7 +479,7 @@ def generate(ctx):
             from . import c10_kit as kit
             ncalls += len(kit.observed_calls(c["cfg"], obs))
         distinct.add(json.dumps([c["cfg"].get(k) for k in ("nch", "nker", "nqg", "sched", "via", "chunk", "jit", "init_mode",
-                                                           "builds")] + [(c["cfg"].get("eseed") or [None])[0],
+                                                           "builds", "jit_pre")] + [(c["cfg"].get("eseed") or [None])[0],
                                                                          bool(c["cfg"].get("pre_init"))]))
     ctx.count(ncalls + len(cases), len(distinct))
     ctx.hist("observed key-consuming calls", ncalls)
@@ -559,8 +612,13 @@ def s_case(cfg, obs):
         else:
             ops.append("(BSetEngineSeed (KeySeed (b_engine [])))")
     if cfg["via"] == "builder":
-        if cfg["jit"] is not None:
-            ops.append("(BSetJitter %s)" % jit_lit(cfg))
+        def jd(js):
+            return "None" if js is None else "(Some %s)" % lst(nat(names.index(n)) for n in js)
+
+        for jp in cfg.get("jit_pre") or []:
+            ops.append("(BSetJitter %s)" % jd(jp))
+        if cfg["jit"] is not None or cfg.get("jit_pre"):
+            ops.append("(BSetJitter %s)" % jd(cfg["jit"]))
         pre = cfg.get("pre_init")
         if pre is not None:
             ops += ["(BSetInit %s)" % init_lit(pre["mode"], pre["init"]), "BBuild"]
